@@ -148,7 +148,8 @@ class Project:
                 except SyntaxError as e:
                     raise AnalysisError("cannot parse %s: %s" % (rel, e))
                 self.modules[name] = mod
-        from .desugar import normalise_keywords, canonical_roles
+        from .desugar import normalise_keywords, canonical_roles, normalise_super
+        self.super_calls_normalised = normalise_super([m.tree for m in self.modules.values()])
         self.keyword_calls_normalised = normalise_keywords([m.tree for m in self.modules.values()])
         self.role_renames = canonical_roles([m.tree for m in self.modules.values()])
         for mod in self.modules.values():
